@@ -7,7 +7,7 @@
    Float32 rounding is not modelled (theorems are over R); the tie to the running code is the
    T-validation / kernel correspondence of bin/props/C34.py and C35.py. *)
 From Coq Require Import ZArith Reals List Bool Lra Lia Psatz String.
-From VF Require Import Base.Scalar Base.ScalarR Base.Vec Base.Loop Base.Kernel Model.Ray Gen.T_ray Gen.T_render_util.
+From VF Require Import Base.Scalar Base.ScalarR Base.Vec Base.Loop Base.Kernel Model.Ray Gen.T_bvh Gen.T_ray Gen.T_render_util.
 Import ListNotations.
 Local Open Scope R_scope.
 
@@ -1294,6 +1294,47 @@ Proof.
   rewrite prim_geoms_real, prim_geoms_flex; [apply app_nil_r | |].
   - intros k Hk. apply in_map_iff in Hk. destruct Hk as (j & <- & Hj). apply in_seq in Hj. lia.
   - intros k Hk. apply in_map_iff in Hk. destruct Hk as (j & <- & Hj). apply in_seq in Hj. lia.
+Qed.
+
+(* ======================================================================== scene-BVH leaf layout: write side *)
+(* what build / refit write is what _ray_bvh and cast_ray read: with stride ngeom + nflexgeom the leaf of
+   (world w, enabled geom k) is mapped back to enabled_geom_ids[k], the flex leaves are skipped, and no two
+   (world, primitive) pairs share a leaf *)
+Theorem refit_leaf_layout (n f w : Z) (en : Z -> Z) :
+  (forall k, (0 <= k < n)%Z -> bvh_geom_of n f w en (geom_leaf (n + f) w k) = Some (en k)) /\
+  (forall j, (0 <= j)%Z -> bvh_geom_of n f w en (flex_leaf (n + f) n w j) = None) /\
+  (forall w' k k', (0 <= k < n + f)%Z -> (0 <= k' < n + f)%Z ->
+     geom_leaf (n + f) w k = geom_leaf (n + f) w' k' -> w = w' /\ k = k').
+Proof.
+  unfold geom_leaf, flex_leaf. repeat split.
+  - intros k Hk. rewrite bvh_geom_of_block. destruct (Z.ltb_spec k n); [reflexivity | lia].
+  - intros j Hj. replace (w * (n + f) + n + j)%Z with (w * (n + f) + (n + j))%Z by ring.
+    rewrite bvh_geom_of_block. destruct (Z.ltb_spec (n + j) n); [lia | reflexivity].
+  - assert (w = w') by nia. assumption.
+  - assert (w = w') by nia. subst. lia.
+Qed.
+
+(* the translated flex-bounds kernel writes lower / upper / group of flex primitive tid1 of world tid0 at
+   flex_leaf total_bvh_size bvh_ngeom tid0 tid1, and nowhere else *)
+Theorem flex_bounds_write_index (w j : Z) (flex_vertadr flex_vertnum : Z -> Z) (flex_edge : Z -> list Z) (flex_radius : Z -> R)
+        (flexvert_xpos : Z -> Z -> list R) (flex_geom_flexid flex_geom_edgeid : Z -> Z) (bvh_ngeom total : Z)
+        (lower_out upper_out : Z -> list R) (group_out : Z -> Z) (orc : nat -> Z) :
+  Forall (fun wr => w_idx wr = [flex_leaf total bvh_ngeom w j])
+         (k__compute_flex_bvh_bounds w j flex_vertadr flex_vertnum flex_edge flex_radius flexvert_xpos flex_geom_flexid
+                                     flex_geom_edgeid bvh_ngeom total lower_out upper_out group_out orc).
+Proof.
+  unfold k__compute_flex_bvh_bounds, flex_leaf.
+  destruct (Z.geb (flex_geom_edgeid j) 0); cbn [fst snd app]; repeat constructor.
+Qed.
+
+(* the stride MUST include the flex primitives: with stride ngeom (and at least one flex primitive) the box of
+   (world 1, geom 0) lands on world 0's first flex leaf, not on the leaf the ray kernels read for it *)
+Lemma stride_without_flex_refuted (n f : Z) (en : Z -> Z) : (0 <= n)%Z -> (1 <= f)%Z ->
+  geom_leaf n 1 0 <> geom_leaf (n + f) 1 0 /\ bvh_geom_of n f 0 en (geom_leaf n 1 0) = None.
+Proof.
+  intros Hn Hf. unfold geom_leaf. split; [lia|].
+  replace (1 * n + 0)%Z with (0 * (n + f) + n)%Z by ring. rewrite bvh_geom_of_block.
+  destruct (Z.ltb_spec n n); [lia | reflexivity].
 Qed.
 
 (* ======================================================================== _orthogonal_basis *)
